@@ -9,6 +9,8 @@ use super::super::{abstract_instruction_set::AbstractInstructionSet, analyses::l
 
 impl AbstractInstructionSet {
     pub(crate) fn dce(mut self) -> AbstractInstructionSet {
+        #[cfg(fuellabs_sway_verif)]
+        crate::verif_hooks::asm_pass("enter", "dce", &self.function, &self.ops);
         let liveness = liveness_analysis(&self.ops, false);
         let ops = &self.ops;
 
@@ -72,11 +74,15 @@ impl AbstractInstructionSet {
             .collect();
         std::mem::swap(&mut self.ops, &mut new_ops);
 
+        #[cfg(fuellabs_sway_verif)]
+        crate::verif_hooks::asm_pass("exit", "dce", &self.function, &self.ops);
         self
     }
 
     // Remove unreachable instructions.
     pub(crate) fn simplify_cfg(mut self) -> AbstractInstructionSet {
+        #[cfg(fuellabs_sway_verif)]
+        crate::verif_hooks::asm_pass("enter", "simplify_cfg", &self.function, &self.ops);
         let ops = &self.ops;
 
         if ops.is_empty() {
@@ -123,6 +129,8 @@ impl AbstractInstructionSet {
             .collect();
         self.ops = reachable_ops;
 
+        #[cfg(fuellabs_sway_verif)]
+        crate::verif_hooks::asm_pass("exit", "simplify_cfg", &self.function, &self.ops);
         self
     }
 }
